@@ -182,6 +182,43 @@ theorem C20_partial (sh : Shared) (calls : List Call) (h : conflictFreeB (calls.
     Linearizable sh (calls.map Call.prog) :=
   conflict_free_linearizable sh _ (conflictFreeB_sound h)
 
+/-- Clause 1 of C20 holds in the model for EVERY schedule and every set of programs, racy or not: the result of a thread
+    only contains values of that thread's own input (the temp structures are thread-private; what the race corrupts is
+    WHICH of the thread's own elements is read back, or whether one is found at all). -/
+theorem no_foreign_values (sh : Shared) (progs : List (List Step)) (sched : List Nat) (i : Nat) (p : List Step)
+    (out : List Int) (hp : progs[i]? = some p)
+    (hr : resultAt (run (Cfg.init sh progs) sched) i = some (.ok out)) : ∀ v ∈ out, v ∈ progVals p := by
+  unfold resultAt at hr
+  cases ht : (run (Cfg.init sh progs) sched).threads[i]? with
+  | none => simp [ht] at hr
+  | some t =>
+    simp only [ht] at hr
+    have hinv := run_ownOnly (fun k => progVals (progs.getD k [])) sched (Cfg.init sh progs) (by
+      intro k tk hk
+      simp only [Cfg.init, List.getElem?_map] at hk
+      cases hq : progs[k]? with
+      | none => simp [hq] at hk
+      | some q =>
+        simp only [hq, Option.map_some, Option.some.injEq] at hk
+        subst hk
+        have : progs.getD k [] = q := by simp [List.getD, hq]
+        simp only [this]
+        exact ⟨by simp [TState.init], by simp [TState.init], fun v hv => hv⟩) i t ht
+    have hpi : progs.getD i [] = p := by simp [List.getD, hp]
+    simp only [hpi] at hinv
+    unfold TState.result at hr
+    cases he : t.err with
+    | some e => simp [he] at hr
+    | none =>
+      simp only [he] at hr
+      split at hr
+      · have : t.out = out := by
+          have := Option.some.inj hr
+          exact Outcome.ok.inj this
+        rw [← this]
+        exact hinv.2.1
+      · exact absurd hr (by simp)
+
 /-! ### kernel-checked counter-schedules (each is replayed on the real code by the `sched` suite) -/
 
 def sh0 : Shared := Shared.ofList []
